@@ -1,24 +1,1108 @@
-//! C19 — not implemented yet (stub so that the registry compiles).
+//! C19 — dynamic macros replay what was typed and never leave a key down.
+//!
+//! Relational oracle on the real code: a history records a dynamic macro (start / stop / stop with
+//! truncation / record key pressed again / another record key / size limit), then plays it. The OS
+//! stream of the replay is compared with a twin run that shares the whole prefix and then *types*
+//! the recorded portion again (the play key replaced by a key with an effect-free action of the
+//! same shape). What "the recorded portion" is comes from the harness's own bookkeeping of the
+//! history (events between start and stop, minus the stop key and the truncated tail; keys still
+//! down are released at the end in any order; a macro never plays itself), not from kanata.
+//!
+//! Timing: with `dynamic-macro-replay-delay-behaviour recorded` kanata runs the recorded pauses
+//! inside one `tick_ms` call, so this check keeps its own stepper that reconstructs kanata's
+//! internal millisecond of every output from the `t:Nms` markers of the simulated output.
 
+use crate::core::rng::Rng;
+use crate::core::sim::{code_name, osc, render_hist, Ev};
 use crate::core::{CaseOut, Check, Ctx};
+use kanata_parser::keys::OsCode;
+use kanata_state_machine::oskbd::{KeyEvent, KeyValue};
+use kanata_state_machine::Kanata;
+use serde_json::{json, Value};
+use std::collections::{BTreeMap, BTreeSet};
 
 pub struct C19Check;
 pub static C19: C19Check = C19Check;
+
+// ------------------------------------------------------------------------------------------------
+// stepper with kanata-internal time
+
+#[derive(Clone, Debug, PartialEq, Eq)]
+struct IOut {
+    /// kanata-internal millisecond (sum of the `t:Nms` markers seen so far)
+    it: u64,
+    down: bool,
+    name: String,
+    /// not a key press/release (unicode, mouse, …): compared verbatim
+    other: bool,
+}
+
+impl IOut {
+    fn short(&self) -> String {
+        if self.other {
+            format!("{}@{}", self.name, self.it)
+        } else {
+            format!("{}{}@{}", if self.down { "↓" } else { "↑" }, self.name, self.it)
+        }
+    }
+}
+
+struct ISim {
+    k: Kanata,
+    it: u64,
+    outs: Vec<IOut>,
+    down: BTreeSet<String>,
+}
+
+impl ISim {
+    fn new(cfg: &str) -> Result<ISim, String> {
+        match Kanata::new_from_str(cfg, Default::default()) {
+            Ok(k) => Ok(ISim { k, it: 0, outs: vec![], down: BTreeSet::new() }),
+            Err(e) => Err(format!("{e}")),
+        }
+    }
+    fn drain(&mut self) {
+        if self.k.kbd_out.outputs.events.is_empty() {
+            return;
+        }
+        let evs = std::mem::take(&mut self.k.kbd_out.outputs.events);
+        for s in evs {
+            if let Some(n) = s.strip_prefix("t:").and_then(|r| r.strip_suffix("ms")) {
+                self.it += n.parse::<u64>().unwrap_or(0);
+                continue;
+            }
+            let (down, name, other) = if let Some(r) = s.strip_prefix("out:↓") {
+                (true, r.to_string(), false)
+            } else if let Some(r) = s.strip_prefix("out:↑") {
+                (false, r.to_string(), false)
+            } else {
+                (false, s.clone(), true)
+            };
+            if !other {
+                if down {
+                    self.down.insert(name.clone());
+                } else if !self.down.remove(&name) {
+                    // redundant release: an OS ignores it
+                    continue;
+                }
+            }
+            self.outs.push(IOut { it: self.it, down, name, other });
+        }
+        self.k.kbd_out.log = kanata_state_machine::oskbd::LogFmt::new();
+    }
+    fn event(&mut self, code: u16, value: KeyValue) {
+        let Some(code) = OsCode::from_u16(code) else { return };
+        self.k.handle_input_event(&KeyEvent { code, value }).expect("harness: handle_input_event returned Err");
+        self.drain();
+    }
+    fn tick(&mut self, n: u64) {
+        for _ in 0..n {
+            self.k.tick_ms(1, &None).expect("harness: tick_ms returned Err");
+            self.drain();
+        }
+    }
+    fn run(&mut self, h: &[Ev]) {
+        for e in h {
+            match e {
+                Ev::P(c) => self.event(*c, KeyValue::Press),
+                Ev::R(c) => self.event(*c, KeyValue::Release),
+                Ev::T(n) => self.tick(*n as u64),
+                _ => {}
+            }
+        }
+    }
+}
+
+// ------------------------------------------------------------------------------------------------
+// configuration
+
+const TYPING: &[&str] = &["a", "s", "d", "f", "g"];
+const LAYER_KEY: &str = "h";
+const REC: &[&str] = &["1", "2", "3"];
+const PLAY: &[&str] = &["7", "8", "9"];
+const DUMMY: &[&str] = &["u", "i", "o"];
+const PLAY_WITNESS: &[&str] = &["f14", "f17", "f18"];
+const STOP: &str = "0";
+const TRUNC: &[&str] = &["-", "="];
+const OUT_LETTERS: &[&str] = &["q", "w", "e", "r", "t", "y", "z", "x", "c", "v", "b", "n", "m"];
+const OUT_MODS: &[&str] = &["lsft", "lctl", "lalt", "rsft"];
+
+#[derive(Clone, Copy, Debug, PartialEq, Eq)]
+enum Kind {
+    Basic,
+    ReRecord,
+    Nested,
+    Limit,
+    HeldContext,
+    Timed,
+}
+
+fn kind_of(idx: u64) -> Kind {
+    match idx % 12 {
+        0 | 1 | 2 => Kind::Basic,
+        3 => Kind::ReRecord,
+        4 | 5 => Kind::Nested,
+        6 => Kind::Limit,
+        7 => Kind::HeldContext,
+        _ => Kind::Timed,
+    }
+}
+
+struct Cfg {
+    text: String,
+    recorded_delays: bool,
+    max_presses: u32,
+    trunc: [u32; 2],
+    time_sensitive: bool,
+    /// largest timeout written in the config
+    max_timeout: u32,
+    /// shapes used (for tags)
+    shapes: BTreeSet<&'static str>,
+}
+
+fn insensitive_action(rng: &mut Rng, shapes: &mut BTreeSet<&'static str>) -> String {
+    let l = |rng: &mut Rng| rng.pick(OUT_LETTERS).to_string();
+    match rng.usize(10) {
+        0..=3 => {
+            shapes.insert("plain");
+            l(rng)
+        }
+        4 | 5 => {
+            shapes.insert("chord");
+            let p = ["S-", "C-", "A-", "C-S-", "RS-"];
+            format!("{}{}", rng.pick(&p), l(rng))
+        }
+        6 | 7 => {
+            shapes.insert("multi");
+            if rng.coin() {
+                format!("(multi {} {})", l(rng), l(rng))
+            } else {
+                format!("(multi {} {})", rng.pick(OUT_MODS), l(rng))
+            }
+        }
+        8 => {
+            shapes.insert("mod");
+            rng.pick(OUT_MODS).to_string()
+        }
+        _ => {
+            shapes.insert("multi3");
+            format!("(multi {} {} {})", rng.pick(OUT_MODS), l(rng), l(rng))
+        }
+    }
+}
+
+fn sensitive_action(rng: &mut Rng, shapes: &mut BTreeSet<&'static str>, t: u32) -> String {
+    let l = |rng: &mut Rng| rng.pick(OUT_LETTERS).to_string();
+    match rng.usize(6) {
+        0 => {
+            shapes.insert("tap-hold");
+            format!("(tap-hold {t} {t} {} {})", l(rng), rng.pick(OUT_MODS))
+        }
+        1 => {
+            shapes.insert("tap-hold-press");
+            format!("(tap-hold-press {t} {t} {} {})", l(rng), l(rng))
+        }
+        2 => {
+            shapes.insert("tap-hold-release");
+            format!("(tap-hold-release {t} {t} {} {})", l(rng), rng.pick(OUT_MODS))
+        }
+        3 => {
+            shapes.insert("one-shot");
+            format!("(one-shot {} {})", t + 10, rng.pick(OUT_MODS))
+        }
+        4 => {
+            shapes.insert("tap-dance");
+            format!("(tap-dance {t} ({} {} {}))", l(rng), l(rng), l(rng))
+        }
+        _ => insensitive_action(rng, shapes),
+    }
+}
+
+fn make_cfg(rng: &mut Rng, kind: Kind) -> Cfg {
+    let time_sensitive = kind == Kind::Timed;
+    let recorded_delays = if time_sensitive { rng.chance(4, 5) } else { rng.coin() };
+    let max_presses = if kind == Kind::Limit { rng.below(6) as u32 } else { *rng.pick(&[128u32, 128, 1000, 40]) };
+    let trunc = [rng.range(1, 3) as u32, rng.range(2, 9) as u32];
+    let witness = rng.coin();
+    let t = *rng.pick(&[20u32, 30, 50]);
+    let mut shapes = BTreeSet::new();
+    let mut src: Vec<String> = vec![];
+    let mut l0: Vec<String> = vec![];
+    let mut l1: Vec<String> = vec![];
+    for k in TYPING {
+        src.push(k.to_string());
+        let a0 = if time_sensitive && rng.chance(1, 2) { sensitive_action(rng, &mut shapes, t) } else { insensitive_action(rng, &mut shapes) };
+        l0.push(a0);
+        l1.push(if rng.chance(1, 3) {
+            shapes.insert("transparent");
+            "_".to_string()
+        } else {
+            insensitive_action(rng, &mut shapes)
+        });
+    }
+    src.push(LAYER_KEY.to_string());
+    l0.push("(layer-while-held l1)".to_string());
+    l1.push("_".to_string());
+    shapes.insert("layer-while-held");
+    let wrap = |w: &str, a: String| if witness { format!("(multi {w} {a})") } else { a };
+    let mut ctl = |name: &str, action: String| {
+        src.push(name.to_string());
+        l0.push(action);
+        l1.push("_".to_string());
+    };
+    for (i, k) in REC.iter().enumerate() {
+        ctl(k, wrap("f13", format!("(dynamic-macro-record {i})")));
+    }
+    for (i, k) in PLAY.iter().enumerate() {
+        ctl(k, wrap(PLAY_WITNESS[i], format!("(dynamic-macro-play {i})")));
+    }
+    for (i, k) in DUMMY.iter().enumerate() {
+        // same shape as the play keys, but the macro ids are never recorded: no effect
+        ctl(k, wrap(PLAY_WITNESS[i], format!("(dynamic-macro-play {})", 100 + i)));
+    }
+    ctl(STOP, wrap("f15", "dynamic-macro-record-stop".to_string()));
+    for (i, k) in TRUNC.iter().enumerate() {
+        ctl(k, wrap("f16", format!("(dynamic-macro-record-stop-truncate {})", trunc[i])));
+    }
+    let text = format!(
+        "(defcfg dynamic-macro-max-presses {max_presses} dynamic-macro-replay-delay-behaviour {})\n(defsrc {})\n(deflayer l0 {})\n(deflayer l1 {})\n",
+        if recorded_delays { "recorded" } else { "constant" },
+        src.join(" "),
+        l0.join(" "),
+        l1.join(" ")
+    );
+    Cfg { text, recorded_delays, max_presses, trunc, time_sensitive, max_timeout: t + 10, shapes }
+}
+
+// ------------------------------------------------------------------------------------------------
+// history builder with the harness's own bookkeeping of what is being recorded
+
+#[derive(Clone, Debug)]
+struct RecEv {
+    press: bool,
+    code: u16,
+    /// ticks until the next event of the original history (whatever it was)
+    gap: u32,
+}
+
+#[derive(Clone, Debug, Default)]
+struct Stored {
+    evs: Vec<RecEv>,
+    /// keys pressed in `evs` and not released in it: released at the end of the replay, any order
+    tail: Vec<u16>,
+    /// stopped by the size limit: the exact cut is implementation-defined; `evs` holds everything
+    /// typed until the recording was seen to have stopped, candidates are tried by the judge
+    by_limit: bool,
+}
+
+fn unreleased(evs: &[RecEv]) -> Vec<u16> {
+    let mut down: Vec<u16> = vec![];
+    for e in evs {
+        if e.press {
+            if !down.contains(&e.code) {
+                down.push(e.code);
+            }
+        } else {
+            down.retain(|c| *c != e.code);
+        }
+    }
+    down
+}
+
+struct Builder {
+    h: Vec<Ev>,
+    down: Vec<u16>,
+    rec: Option<(usize, Vec<RecEv>)>,
+    stored: BTreeMap<usize, Stored>,
+    /// minimum gap between events inside recorded sections (1 for exact-timing cases)
+    min_gap: u32,
+    gaps: Vec<u32>,
+    settle: u32,
+}
+
+impl Builder {
+    fn tick(&mut self, n: u32) {
+        if n == 0 {
+            return;
+        }
+        if let Some(Ev::T(k)) = self.h.last_mut() {
+            *k += n;
+        } else {
+            self.h.push(Ev::T(n));
+        }
+        if let Some((_, evs)) = self.rec.as_mut() {
+            if let Some(l) = evs.last_mut() {
+                l.gap += n;
+            }
+        }
+    }
+    fn press(&mut self, c: u16) {
+        self.h.push(Ev::P(c));
+        if !self.down.contains(&c) {
+            self.down.push(c);
+        }
+        if let Some((_, evs)) = self.rec.as_mut() {
+            evs.push(RecEv { press: true, code: c, gap: 0 });
+        }
+    }
+    fn release(&mut self, c: u16) {
+        self.h.push(Ev::R(c));
+        self.down.retain(|x| *x != c);
+        if let Some((_, evs)) = self.rec.as_mut() {
+            evs.push(RecEv { press: false, code: c, gap: 0 });
+        }
+    }
+    fn gap(&mut self, rng: &mut Rng) {
+        let g = (*rng.pick(&self.gaps)).max(if self.rec.is_some() { self.min_gap } else { 0 });
+        self.tick(g);
+    }
+    /// random typing on the typing keys (and the layer key)
+    fn typing(&mut self, rng: &mut Rng, keys: &[u16], n: usize) {
+        for _ in 0..n {
+            let held: Vec<u16> = self.down.iter().copied().filter(|c| keys.contains(c)).collect();
+            let ups: Vec<u16> = keys.iter().copied().filter(|c| !self.down.contains(c)).collect();
+            if !held.is_empty() && (ups.is_empty() || rng.chance(45, 100)) {
+                let c = *rng.pick(&held);
+                self.release(c);
+            } else if !ups.is_empty() {
+                let c = *rng.pick(&ups);
+                self.press(c);
+            }
+            self.gap(rng);
+        }
+    }
+    fn release_typing(&mut self, rng: &mut Rng, keys: &[u16]) {
+        let mut held: Vec<u16> = self.down.iter().copied().filter(|c| keys.contains(c)).collect();
+        rng.shuffle(&mut held);
+        for c in held {
+            self.release(c);
+            self.gap(rng);
+        }
+    }
+    /// press a record key: if a recording is running it is stopped (the press is not part of it)
+    fn press_record(&mut self, id: usize) {
+        let code = osc(REC[id]);
+        // the control key press itself is never part of a recording
+        let rec = self.rec.take();
+        self.h.push(Ev::P(code));
+        self.down.push(code);
+        self.tick_raw(2);
+        match rec {
+            None => self.rec = Some((id, vec![])),
+            Some((cur, evs)) => {
+                self.store(cur, evs, 0);
+                if cur != id {
+                    self.rec = Some((id, vec![]));
+                }
+            }
+        }
+    }
+    /// press the stop key / a truncating stop key
+    fn press_stop(&mut self, key: &str, truncate: u32) {
+        let code = osc(key);
+        let rec = self.rec.take();
+        self.h.push(Ev::P(code));
+        self.down.push(code);
+        self.tick_raw(2);
+        if let Some((cur, evs)) = rec {
+            self.store(cur, evs, truncate);
+        }
+    }
+    fn tick_raw(&mut self, n: u32) {
+        // ticks that do not count into any recorded gap bookkeeping beyond the last event
+        if let Some(Ev::T(k)) = self.h.last_mut() {
+            *k += n;
+        } else {
+            self.h.push(Ev::T(n));
+        }
+    }
+    fn store(&mut self, id: usize, mut evs: Vec<RecEv>, truncate: u32) {
+        let keep = evs.len().saturating_sub(truncate as usize);
+        evs.truncate(keep);
+        let tail = unreleased(&evs);
+        self.stored.insert(id, Stored { evs, tail, by_limit: false });
+    }
+    fn release_all(&mut self, rng: &mut Rng) {
+        let mut held = self.down.clone();
+        rng.shuffle(&mut held);
+        for c in held {
+            self.release(c);
+            self.tick(1);
+        }
+    }
+    fn settle(&mut self) {
+        let s = self.settle;
+        self.tick(s);
+    }
+}
+
+// ------------------------------------------------------------------------------------------------
+// case construction
+
+#[derive(Clone, Debug)]
+struct Typed {
+    press: bool,
+    code: u16,
+    gap: u32,
+}
+
+struct Case {
+    kind: Kind,
+    cfg: Cfg,
+    /// history up to (not including) the judged play key press
+    prefix: Vec<Ev>,
+    play_id: usize,
+    stored: BTreeMap<usize, Stored>,
+    /// ticks to wait for the replay
+    wait: u32,
+    /// keys physically held while the macro is played (released afterwards)
+    held_at_play: Vec<u16>,
+    notes: Vec<String>,
+}
+
+fn typing_codes() -> Vec<u16> {
+    TYPING.iter().chain([LAYER_KEY].iter()).map(|k| osc(k)).collect()
+}
+
+fn make_case(ctx: &Ctx, idx: u64) -> Case {
+    let kind = kind_of(idx);
+    let mut rng = Rng::for_case(ctx.seed, "C19", "case", idx);
+    let cfg = make_cfg(&mut rng, kind);
+    let keys = typing_codes();
+    let exact_timing = cfg.time_sensitive;
+    // several tap-holds pressed close together are decided one after the other
+    let settle = if cfg.time_sensitive { 6 * cfg.max_timeout + 60 } else { cfg.max_timeout + 60 };
+    let mut b = Builder {
+        h: vec![],
+        down: vec![],
+        rec: None,
+        stored: BTreeMap::new(),
+        min_gap: if exact_timing { 1 } else { 0 },
+        gaps: if exact_timing { vec![1, 1, 2, 3, 7, cfg.max_timeout - 11, cfg.max_timeout - 10, cfg.max_timeout - 9, cfg.max_timeout + 5] } else { vec![0, 0, 1, 1, 2, 5, 12] },
+        settle,
+    };
+    let mut notes = vec![];
+    let mut held_at_play = vec![];
+    let n_sec = |rng: &mut Rng| rng.usize(ctx.tier.sel(14, 24));
+    // one recording: optional keys held across the start, section, stop in a random way
+    let record = |b: &mut Builder, rng: &mut Rng, id: usize, n: usize, notes: &mut Vec<String>, nested: &[usize], allow_tail: bool| {
+        // keys held across the start
+        if rng.chance(1, 3) {
+            let k_ = 1 + rng.usize(3);
+            b.typing(rng, &keys, k_);
+        }
+        if b.min_gap > 0 {
+            b.settle();
+        } else {
+            b.tick(rng.range(0, 3) as u32 + 8);
+        }
+        b.press_record(id);
+        let rc = osc(REC[id]);
+        let early_release = rng.chance(2, 3);
+        if early_release {
+            b.release(rc);
+            b.gap(rng);
+        }
+        let mut left = n;
+        let mut nest: Vec<usize> = nested.to_vec();
+        while left > 0 || !nest.is_empty() {
+            let chunk = if nest.is_empty() { left } else { rng.usize(left + 1) };
+            b.typing(rng, &keys, chunk);
+            left -= chunk;
+            if let Some(x) = nest.pop() {
+                // tap a play key while recording (it is recorded as a physical key)
+                let pc = osc(PLAY[x]);
+                b.press(pc);
+                b.gap(rng);
+                if rng.chance(1, 4) {
+                    b.typing(rng, &keys, 1);
+                }
+                b.release(pc);
+                // let a live replay (if any) finish most of the time
+                if rng.chance(3, 4) {
+                    b.tick(120);
+                } else {
+                    b.gap(rng);
+                }
+            }
+        }
+        if !early_release && rng.coin() {
+            b.release(rc);
+            b.gap(rng);
+        }
+        if !allow_tail {
+            b.release_typing(rng, &keys);
+        }
+        // before the stop: let queued events be processed; time-sensitive configs settle fully if keys are held
+        if b.min_gap > 0 {
+            // time-sensitive: no decision may be pending when the stop key is pressed
+            b.settle();
+        } else {
+            b.tick(34);
+        }
+        let mode = rng.usize(5);
+        match mode {
+            0 | 1 => {
+                b.press_stop(STOP, 0);
+                notes.push(format!("rec{id}: stop"));
+            }
+            2 => {
+                let which = rng.usize(2);
+                b.press_stop(TRUNC[which], cfg.trunc[which]);
+                notes.push(format!("rec{id}: stop-truncate {}", cfg.trunc[which]));
+            }
+            3 if !b.down.contains(&rc) => {
+                b.press_record(id);
+                notes.push(format!("rec{id}: record key pressed again"));
+            }
+            _ => {
+                // another record key: saves this one and starts the other, which is stopped right away
+                let other = (id + 1 + rng.usize(2)) % 3;
+                if b.down.contains(&osc(REC[other])) || nested.contains(&other) || other == id {
+                    b.press_stop(STOP, 0);
+                    notes.push(format!("rec{id}: stop"));
+                } else {
+                    b.press_record(other);
+                    b.release(osc(REC[other]));
+                    b.tick(3);
+                    b.press_stop(STOP, 0);
+                    notes.push(format!("rec{id}: stopped by record key {other}, which then recorded only its own release"));
+                }
+            }
+        }
+        b.tick(2);
+        b.release_all(rng);
+        b.settle();
+    };
+    let mut play_id = rng.usize(3);
+    match kind {
+        Kind::Basic | Kind::Timed => {
+            if rng.chance(1, 4) {
+                b.typing(&mut rng, &keys, 4);
+                b.release_all(&mut rng);
+                b.settle();
+            }
+            let n = n_sec(&mut rng);
+            // time-sensitive: several keys left down make the comparison ambiguous, so do it less often
+            let allow_tail = kind == Kind::Basic || rng.coin();
+            record(&mut b, &mut rng, play_id, n, &mut notes, &[], allow_tail);
+        }
+        Kind::ReRecord => {
+            let n = n_sec(&mut rng);
+            record(&mut b, &mut rng, play_id, n, &mut notes, &[], true);
+            if rng.coin() {
+                // play the first version in between (not judged)
+                b.press(osc(PLAY[play_id]));
+                b.tick(250);
+                b.release(osc(PLAY[play_id]));
+                b.settle();
+            }
+            let n = n_sec(&mut rng);
+            record(&mut b, &mut rng, play_id, n, &mut notes, &[], true);
+            notes.push("re-recorded".into());
+        }
+        Kind::Nested => {
+            let a = play_id;
+            let bb = (play_id + 1) % 3;
+            let shape = rng.usize(5);
+            let mut depth2 = false;
+            match shape {
+                4 => {
+                    // C plays B plays A
+                    let c = (play_id + 2) % 3;
+                    let n_ = 1 + rng.usize(4);
+                    record(&mut b, &mut rng, a, n_, &mut notes, &[], false);
+                    let n_ = 1 + rng.usize(4);
+                    record(&mut b, &mut rng, bb, n_, &mut notes, &[a], false);
+                    let n_ = 1 + rng.usize(4);
+                    record(&mut b, &mut rng, c, n_, &mut notes, &[bb], true);
+                    notes.push("nested: C plays B plays A".into());
+                    play_id = c;
+                    depth2 = true;
+                }
+                0 => {
+                    // B plays A
+                    let n_ = 1 + rng.usize(6);
+                    let c_ = rng.coin();
+                    record(&mut b, &mut rng, a, n_, &mut notes, &[], c_);
+                    let n_ = 1 + rng.usize(6);
+                    record(&mut b, &mut rng, bb, n_, &mut notes, &[a], true);
+                    notes.push("nested: B plays A".into());
+                }
+                1 => {
+                    // A plays itself (first while nothing is stored, then again with a stored version)
+                    let n_ = 1 + rng.usize(5);
+                    record(&mut b, &mut rng, bb, n_, &mut notes, &[bb], true);
+                    if rng.coin() {
+                        let n_ = 1 + rng.usize(5);
+                        record(&mut b, &mut rng, bb, n_, &mut notes, &[bb], true);
+                    }
+                    notes.push("nested: self-play".into());
+                }
+                2 => {
+                    // mutual: A plays B, B plays A
+                    let n_ = 1 + rng.usize(4);
+                    record(&mut b, &mut rng, a, n_, &mut notes, &[bb], false);
+                    let n_ = 1 + rng.usize(4);
+                    record(&mut b, &mut rng, bb, n_, &mut notes, &[a], true);
+                    notes.push("nested: mutual".into());
+                }
+                _ => {
+                    // B plays A twice and itself; A re-recorded afterwards
+                    let n_ = 1 + rng.usize(4);
+                    record(&mut b, &mut rng, a, n_, &mut notes, &[], false);
+                    let n_ = 1 + rng.usize(5);
+                    record(&mut b, &mut rng, bb, n_, &mut notes, &[a, bb, a], true);
+                    if rng.coin() {
+                        let n_ = 1 + rng.usize(4);
+                        record(&mut b, &mut rng, a, n_, &mut notes, &[], false);
+                    }
+                    notes.push("nested: twice + self".into());
+                }
+            }
+            if !depth2 {
+                play_id = bb;
+            }
+        }
+        Kind::Limit => {
+            b.tick(10);
+            b.press_record(play_id);
+            b.release(osc(REC[play_id]));
+            b.tick(1);
+            let total = 2 * cfg.max_presses as usize + 8 + rng.usize(8);
+            // typing far beyond the limit; bookkeeping keeps everything, the judge tries the cuts
+            b.typing(&mut rng, &keys, total);
+            let (id, evs) = b.rec.take().unwrap_or((play_id, vec![]));
+            b.stored.insert(id, Stored { evs, tail: vec![], by_limit: true });
+            b.tick(2);
+            b.release_all(&mut rng);
+            b.settle();
+            notes.push(format!("limit {} exceeded with {} events", cfg.max_presses, total));
+        }
+        Kind::HeldContext => {
+            let n = n_sec(&mut rng);
+            record(&mut b, &mut rng, play_id, n, &mut notes, &[], true);
+        }
+    }
+    // how long a replay can take
+    let mut total: u64 = 0;
+    for s in b.stored.values() {
+        total += s.evs.iter().map(|e| e.gap as u64 + 6).sum::<u64>() + 12;
+    }
+    let wait = (total * 4 + 200).min(20_000) as u32 + settle;
+    // replays started while recording must be over before the judged play
+    b.tick(wait);
+    if kind == Kind::HeldContext {
+        // keys physically held while the macro plays
+        let mut ks = keys.clone();
+        rng.shuffle(&mut ks);
+        ks.truncate(1 + rng.usize(2));
+        if rng.coin() && !ks.contains(&osc(LAYER_KEY)) {
+            ks[0] = osc(LAYER_KEY);
+        }
+        for c in &ks {
+            b.press(*c);
+            b.tick(2);
+        }
+        b.tick(20);
+        held_at_play = ks;
+        notes.push("keys held while playing".into());
+    }
+    Case { kind, cfg, prefix: b.h, play_id, stored: b.stored, wait, held_at_play, notes }
+}
+
+fn play_code(id: usize) -> u16 {
+    osc(PLAY[id])
+}
+
+fn is_play_key(code: u16) -> Option<usize> {
+    PLAY.iter().position(|p| osc(p) == code)
+}
+
+/// what typing the recorded macro again means: nested plays expanded in place (a macro never plays
+/// itself), play keys replaced by the effect-free keys of the same shape
+fn flatten(stored: &BTreeMap<usize, Stored>, id: usize, cut: Option<usize>, active: &mut Vec<usize>, out: &mut Vec<Typed>, order_known: &mut bool, depth: usize, max_depth: &mut usize) {
+    let Some(st) = stored.get(&id) else { return };
+    *max_depth = (*max_depth).max(depth);
+    let evs: &[RecEv] = match cut {
+        Some(n) => &st.evs[..n.min(st.evs.len())],
+        None => &st.evs,
+    };
+    for e in evs {
+        match is_play_key(e.code) {
+            Some(x) => {
+                out.push(Typed { press: e.press, code: osc(DUMMY[x]), gap: e.gap });
+                if e.press && !active.contains(&x) && stored.contains_key(&x) {
+                    active.push(x);
+                    flatten(stored, x, None, active, out, order_known, depth + 1, max_depth);
+                    active.pop();
+                }
+            }
+            None => out.push(Typed { press: e.press, code: e.code, gap: e.gap }),
+        }
+    }
+    if depth > 0 {
+        let tail = if cut.is_some() { unreleased(evs) } else { st.tail.clone() };
+        if tail.len() > 1 {
+            *order_known = false;
+        }
+        for c in tail {
+            let c = match is_play_key(c) {
+                Some(x) => osc(DUMMY[x]),
+                None => c,
+            };
+            out.push(Typed { press: false, code: c, gap: 1 });
+        }
+    }
+}
+
+struct Verdict {
+    sig: Option<(String, String)>,
+    replay: Vec<IOut>,
+    twin: Vec<IOut>,
+    typed: Vec<Typed>,
+    tail: Vec<u16>,
+}
+
+fn render_typed(t: &[Typed]) -> String {
+    t.iter().map(|e| format!("{}:{}{}", if e.press { "d" } else { "u" }, code_name(e.code), if e.gap > 0 { format!(" t:{}", e.gap) } else { String::new() })).collect::<Vec<_>>().join(" ")
+}
+
+fn multiset(v: &[IOut]) -> Vec<(bool, String)> {
+    let mut m: Vec<(bool, String)> = v.iter().map(|o| (o.down, o.name.clone())).collect();
+    m.sort();
+    m
+}
+
+/// run the twin for one candidate cut and compare with the replay outputs
+#[allow(clippy::too_many_arguments)]
+fn compare(case: &Case, cut: Option<usize>, replay: &[IOut], replay_anchor_len: usize, exact: bool) -> Result<Verdict, String> {
+    let mut typed = vec![];
+    let mut order_known = true;
+    let mut active = vec![case.play_id];
+    let mut md = 0;
+    flatten(&case.stored, case.play_id, cut, &mut active, &mut typed, &mut order_known, 0, &mut md);
+    let st = case.stored.get(&case.play_id);
+    let tail: Vec<u16> = match (st, cut) {
+        (Some(s), Some(n)) => unreleased(&s.evs[..n.min(s.evs.len())]),
+        (Some(s), None) => s.tail.clone(),
+        _ => vec![],
+    };
+    let mut tw = ISim::new(&case.cfg.text)?;
+    tw.run(&case.prefix);
+    if tw.outs.len() != replay_anchor_len {
+        return Err("twin prefix diverged from the original run (non-determinism)".into());
+    }
+    let dummy = osc(DUMMY[case.play_id]);
+    tw.event(dummy, KeyValue::Press);
+    tw.tick(1);
+    for (i, e) in typed.iter().enumerate() {
+        tw.event(e.code, if e.press { KeyValue::Press } else { KeyValue::Release });
+        let g = if exact {
+            e.gap
+        } else if i + 1 == typed.len() {
+            30
+        } else {
+            e.gap.min(3)
+        };
+        tw.tick(g as u64);
+    }
+    if !exact {
+        tw.tick(30);
+    }
+    let body_len = tw.outs.len() - replay_anchor_len;
+    for c in &tail {
+        let c = match is_play_key(*c) {
+            Some(x) => osc(DUMMY[x]),
+            None => *c,
+        };
+        tw.event(c, KeyValue::Release);
+        tw.tick(1);
+    }
+    tw.tick(case.wait as u64);
+    tw.event(dummy, KeyValue::Release);
+    tw.tick(case.cfg.max_timeout as u64 + 60);
+    for c in &case.held_at_play {
+        tw.event(*c, KeyValue::Release);
+        tw.tick(1);
+    }
+    tw.tick(case.cfg.max_timeout as u64 + 60);
+    let twin: Vec<IOut> = tw.outs[replay_anchor_len..].to_vec();
+    // compare
+    let mut sig = None;
+    if !order_known {
+        if multiset(replay) != multiset(&twin) {
+            sig = Some(("C19:replay-differs:keys".to_string(), "the replay does not press/release the same keys as typing the recording again (nested tail order unknown, compared as a multiset)".to_string()));
+        }
+    } else {
+        let n = body_len.min(replay.len()).min(twin.len());
+        for i in 0..n {
+            let (r, t) = (&replay[i], &twin[i]);
+            if r.down != t.down || r.name != t.name || r.other != t.other {
+                sig = Some(("C19:replay-differs:order".to_string(), format!("output #{i} of the replay is {} where typing the recording again gives {}", r.short(), t.short())));
+                break;
+            }
+            if exact && r.it != t.it {
+                sig = Some(("C19:replay-differs:timing".to_string(), format!("output #{i} of the replay comes at internal ms {} where typing the recording again gives {}", r.short(), t.short())));
+                break;
+            }
+        }
+        if sig.is_none() {
+            if replay.len().min(twin.len()) < body_len {
+                let (which, missing) = if replay.len() < twin.len() { ("replay", twin[replay.len()].short()) } else { ("typing", replay[twin.len()].short()) };
+                sig = Some(("C19:replay-differs:order".to_string(), format!("the {which} run ends early; the other continues with {missing}")));
+            } else if multiset(&replay[body_len..]) != multiset(&twin[body_len..]) {
+                sig = Some(("C19:replay-differs:tail".to_string(), format!("after the recorded events the replay emits {:?} where releasing the still-held keys gives {:?}", replay[body_len..].iter().map(|o| o.short()).collect::<Vec<_>>(), twin[body_len..].iter().map(|o| o.short()).collect::<Vec<_>>())));
+            }
+        }
+    }
+    Ok(Verdict { sig, replay: replay.to_vec(), twin, typed, tail })
+}
+
+fn witness(case: &Case, v: Option<&Verdict>, extra: Value) -> Value {
+    let mut full = case.prefix.clone();
+    full.push(Ev::P(play_code(case.play_id)));
+    full.push(Ev::T(case.wait));
+    full.push(Ev::R(play_code(case.play_id)));
+    json!({
+        "config": case.cfg.text,
+        "kind": format!("{:?}", case.kind),
+        "notes": case.notes,
+        "history": render_hist(&full),
+        "played_macro": case.play_id,
+        "recorded_portion_typed_by_twin": v.map(|v| render_typed(&v.typed)),
+        "keys_still_down_at_stop": v.map(|v| v.tail.iter().map(|c| code_name(*c)).collect::<Vec<_>>()),
+        "observed": v.map(|v| v.replay.iter().map(|o| o.short()).collect::<Vec<_>>()),
+        "expected": v.map(|v| v.twin.iter().map(|o| o.short()).collect::<Vec<_>>()),
+        "extra": extra,
+    })
+}
 
 impl Check for C19Check {
     fn id(&self) -> &'static str {
         "C19"
     }
-    fn n_cases(&self, _ctx: &Ctx) -> u64 {
-        0
+    fn n_cases(&self, ctx: &Ctx) -> u64 {
+        ctx.tier.sel(30_000, 600_000)
     }
-    fn run_case(&self, _ctx: &Ctx, _idx: u64) -> CaseOut {
-        CaseOut::new()
+    fn describe(&self, ctx: &Ctx, idx: u64) -> Value {
+        let c = make_case(ctx, idx);
+        witness(&c, None, json!(null))
+    }
+    fn run_case(&self, ctx: &Ctx, idx: u64) -> CaseOut {
+        let mut out = CaseOut::new();
+        let case = make_case(ctx, idx);
+        if ctx.verbose {
+            eprintln!("{}\nkind {:?} notes {:?}\nprefix: {}", case.cfg.text, case.kind, case.notes, render_hist(&case.prefix));
+        }
+        let mut sim = match ISim::new(&case.cfg.text) {
+            Ok(s) => s,
+            Err(e) => {
+                out.inc("configs_rejected");
+                if ctx.verbose {
+                    eprintln!("rejected: {e}");
+                }
+                return out;
+            }
+        };
+        out.inc("configs");
+        sim.run(&case.prefix);
+        // ---- state observations after the prefix
+        if sim.k.dynamic_macro_record_state.is_some() {
+            if case.kind == Kind::Limit {
+                out.violate("C19:recording-exceeds-limit", format!("recording still running after typing far beyond dynamic-macro-max-presses {}", case.cfg.max_presses), witness(&case, None, json!({"max_presses": case.cfg.max_presses})));
+            } else {
+                out.inconclusive = Some("recording still active before the play (harness bookkeeping)".into());
+            }
+            return out;
+        }
+        if sim.k.dynamic_macro_replay_state.is_some() {
+            out.violate("C19:replay-never-ends", "a replay started during the recording phase is still running after the settle time", witness(&case, None, json!(null)));
+            return out;
+        }
+        let stored_in_kanata = sim.k.dynamic_macros.get(&(case.play_id as u16)).map(|v| v.len());
+        let anchor = sim.outs.len();
+        let it0 = sim.it;
+        // ---- play
+        let pc = play_code(case.play_id);
+        sim.event(pc, KeyValue::Press);
+        let mut ended_after = None;
+        for t in 0..case.wait {
+            sim.tick(1);
+            if ended_after.is_none() && sim.k.dynamic_macro_replay_state.is_none() {
+                ended_after = Some(t + 1);
+            }
+        }
+        let still_replaying = sim.k.dynamic_macro_replay_state.is_some();
+        // the play key is still held: its own witness key is legitimately down
+        let own_witness = code_name(osc(PLAY_WITNESS[case.play_id]));
+        let down_after_replay: Vec<String> = sim.down.iter().filter(|k| **k != own_witness).cloned().collect();
+        sim.event(pc, KeyValue::Release);
+        sim.tick(case.cfg.max_timeout as u64 + 60);
+        for c in &case.held_at_play {
+            sim.event(*c, KeyValue::Release);
+            sim.tick(1);
+        }
+        sim.tick(case.cfg.max_timeout as u64 + 60);
+        let replay: Vec<IOut> = sim.outs[anchor..].to_vec();
+        out.count("internal_ms_run_inside_replays", sim.it.saturating_sub(it0));
+        if still_replaying {
+            out.violate("C19:replay-never-ends", format!("the replay is still running {} ticks after the play key", case.wait), witness(&case, None, json!({"outputs_so_far": replay.len()})));
+            return out;
+        }
+        // ---- relational comparison with the twin(s)
+        let exact = case.cfg.time_sensitive && case.cfg.recorded_delays;
+        let st = case.stored.get(&case.play_id);
+        // time-sensitive: the order in which several left-over keys are released is arbitrary and can
+        // legitimately change what pending decisions resolve to
+        let ambiguous_tail = case.cfg.time_sensitive && st.map(|s| s.tail.len() > 1).unwrap_or(false);
+        if ambiguous_tail {
+            out.inc("time_sensitive_with_several_keys_down_at_stop");
+        }
+        let judge_relational = (!case.cfg.time_sensitive || case.cfg.recorded_delays) && !ambiguous_tail;
+        let mut verdict: Option<Verdict> = None;
+        let mut limit_cut = None;
+        if judge_relational {
+            let cuts: Vec<Option<usize>> = match st {
+                Some(s) if s.by_limit => {
+                    let m = 2 * case.cfg.max_presses as usize;
+                    (m..=m + 3).map(Some).collect()
+                }
+                _ => vec![None],
+            };
+            for cut in cuts {
+                match compare(&case, cut, &replay, anchor, exact) {
+                    Ok(v) => {
+                        let ok = v.sig.is_none();
+                        if ok {
+                            limit_cut = cut;
+                        }
+                        let better = verdict.is_none() || ok;
+                        if better {
+                            verdict = Some(v);
+                        }
+                        if ok {
+                            break;
+                        }
+                    }
+                    Err(e) => {
+                        out.inconclusive = Some(e);
+                        return out;
+                    }
+                }
+            }
+        }
+        let rec_len = st.map(|s| s.evs.len()).unwrap_or(0);
+        if let Some(v) = &verdict {
+            if let Some((sig, what)) = &v.sig {
+                let (sig, what) = if st.map(|s| s.by_limit).unwrap_or(false) {
+                    ("C19:limit-cut-not-a-prefix".to_string(), format!("limit {}: the replay is not what typing the first 2*limit..2*limit+3 recorded events gives ({what})", case.cfg.max_presses))
+                } else {
+                    // a control key's witness output in the replay means the stop key / truncated tail was replayed
+                    let ctl = v.replay.iter().filter(|o| o.name == "F15" || o.name == "F16").count() != v.twin.iter().filter(|o| o.name == "F15" || o.name == "F16").count();
+                    (if ctl { "C19:stop-key-replayed".to_string() } else { sig.clone() }, what.clone())
+                };
+                out.violate(sig, what, witness(&case, Some(v), json!({"delay_behaviour": if case.cfg.recorded_delays { "recorded" } else { "constant" }, "items_stored_by_kanata": stored_in_kanata, "limit_cut": limit_cut})));
+                return out;
+            }
+            out.inc(if exact { "replays_equal_with_timing" } else { "replays_equal_in_order" });
+            out.count("replayed_outputs_compared", v.replay.len() as u64);
+            if !v.tail.is_empty() {
+                out.inc("replays_with_keys_down_at_stop");
+            }
+        } else {
+            out.inc("replays_judged_by_invariants_only");
+        }
+        // ---- invariants
+        if !down_after_replay.is_empty() && case.held_at_play.is_empty() {
+            out.violate("C19:key-down-after-replay", format!("{} down after the replay ended (play key still held, nothing else)", down_after_replay.join(",")), witness(&case, verdict.as_ref(), json!({"replay_ended_after": ended_after})));
+            return out;
+        }
+        if !sim.down.is_empty() {
+            out.violate("C19:key-down-after-replay", format!("{} down after the replay and after every physical key was released", sim.down.iter().cloned().collect::<Vec<_>>().join(",")), witness(&case, verdict.as_ref(), json!({"replay_ended_after": ended_after})));
+            return out;
+        }
+        // ---- evidence
+        out.inc(&format!("kind_{:?}", case.kind));
+        out.inc(if case.cfg.recorded_delays { "delay_recorded" } else { "delay_constant" });
+        out.max("recorded_events", rec_len as u64);
+        if rec_len > 0 {
+            out.inc("nonempty_recordings");
+        }
+        if !replay.is_empty() {
+            out.inc("replays_with_output");
+        }
+        for n in &case.notes {
+            if n.contains("truncate") {
+                out.inc("stops_with_truncation");
+            } else if n.contains("pressed again") {
+                out.inc("stops_by_record_again");
+            } else if n.contains("stopped by record key") {
+                out.inc("stops_by_other_record_key");
+            } else if n.ends_with(": stop") {
+                out.inc("stops_by_stop_key");
+            } else if n.starts_with("nested") {
+                out.inc("nested_cases");
+            }
+        }
+        if case.kind == Kind::Limit {
+            out.inc("limit_hits");
+            if let Some(Some(c)) = Some(limit_cut) {
+                out.inc(&format!("limit_cut_at_2m_plus_{}", c - 2 * case.cfg.max_presses as usize));
+            }
+        }
+        if case.kind == Kind::Nested {
+            let mut typed = vec![];
+            let mut ok = true;
+            let mut md = 0;
+            flatten(&case.stored, case.play_id, None, &mut vec![case.play_id], &mut typed, &mut ok, 0, &mut md);
+            out.max("nested_depth", md as u64);
+            let self_refused = case.stored.get(&case.play_id).map(|s| s.evs.iter().any(|e| e.press && is_play_key(e.code) == Some(case.play_id))).unwrap_or(false);
+            if self_refused {
+                out.inc("self_play_inside_own_recording");
+            }
+        }
+        out.tag(format!(
+            "{:?}|{}|{}|{}|len{}|tail{}|{:?}",
+            case.kind,
+            if case.cfg.recorded_delays { "rec" } else { "const" },
+            case.cfg.shapes.iter().copied().collect::<Vec<_>>().join(","),
+            case.notes.join(";"),
+            rec_len.min(30),
+            st.map(|s| s.tail.len()).unwrap_or(0),
+            ended_after.map(|e| e / 16)
+        ));
+        if idx % 1500 < 6 {
+            out.sample = Some(witness(&case, verdict.as_ref(), json!({"replay_ended_after_ticks": ended_after})));
+        }
+        out
     }
     fn rule(&self) -> String {
-        "not implemented".into()
+        "case = one configuration (5 typing keys with plain / output-chord / multi / modifier actions on two layers, a layer-while-held key, 3 record keys, 3 play keys, stop and two stop-truncate keys, optionally each control key also outputs a witness key; 1/3 of the cases add tap-hold (3 variants), one-shot and tap-dance keys; both replay-delay behaviours) and one history that records macros and finally plays one: basic (keys held across start and stop, stop by stop key / truncation 1-9 / record key again / another record key), re-record, nested (B plays A, self-play, mutual, twice+self, A re-recorded later), size limit 0-5 exceeded, keys or the layer key physically held while playing, time-sensitive. The replay's OS stream after the play key is compared with a twin run with the identical prefix that types the recorded portion again (harness bookkeeping; nested plays expanded in place, a macro never inside itself; keys still down at stop released at the end and compared as a multiset): time-insensitive configs by order, time-sensitive configs with `recorded` delays by order and kanata-internal millisecond (gaps >= 1 ms in the recorded section), time-sensitive with `constant` only by the invariants. Invariants always: the replay ends within the wait time, nothing is down when it has ended, nothing down after everything is released, the recording has stopped by itself after the limit was exceeded and the replay equals typing the first 2*limit..2*limit+3 events. Non-trivial = a replay that produced output; distinct = (kind, delay behaviour, action shapes, stop modes, recorded length, tail size, replay duration class).".into()
     }
     fn assumptions(&self) -> Vec<String> {
-        vec![]
+        vec![
+            "control keys (record/stop/play) are pressed when no tap-hold/tap-dance decision is pending and at least 2 ms pass before the next event, so 'between start and stop' is unambiguous".into(),
+            "time-sensitive configurations: exact timing is only judged with `recorded` delays, recorded gaps >= 1 ms, no nested plays, and a full settle before the stop when keys are still held (the moment the left-over releases are sent is not specified); with `constant` delays only the invariants are judged".into(),
+            "the exact cut at dynamic-macro-max-presses is implementation-defined: any prefix of 2*limit .. 2*limit+3 events is accepted".into(),
+            "no recording is active while the judged play runs; macros with cancel-on-press are not in these configurations".into(),
+        ]
+    }
+    fn floors(&self, ctx: &Ctx) -> Vec<(&'static str, u64)> {
+        let s = ctx.tier.sel(1, 15);
+        vec![
+            ("replays_equal_in_order", 12_000 * s),
+            ("replays_equal_with_timing", 3_000 * s),
+            ("replays_with_output", 15_000 * s),
+            ("replays_with_keys_down_at_stop", 8_000 * s),
+            ("stops_with_truncation", 3_000 * s),
+            ("stops_by_record_again", 2_500 * s),
+            ("stops_by_other_record_key", 3_000 * s),
+            ("nested_cases", 2_500 * s),
+            ("self_play_inside_own_recording", 1_000 * s),
+            ("limit_hits", 1_500 * s),
+            ("delay_constant", 6_000 * s),
+            ("delay_recorded", 9_000 * s),
+        ]
     }
 }
